@@ -5,6 +5,7 @@ cd "$(dirname "$0")"
 mkdir -p work evidence
 export CARGO_NET_OFFLINE=true
 [ -f tools/gen_tables.py ] && python3 tools/gen_tables.py
+[ -f tools/rs2lean.py ] && python3 tools/rs2lean.py
 cp /repo/Cargo.lock harness/Cargo.lock 2>/dev/null || true
 ok=0
 for p in $(cat claims.d/ENABLED); do
